@@ -119,14 +119,14 @@ def delArity (live : List (String × List Tuple)) (arity : List (String × Nat))
     if ex.length - (deleteLive ex ts).length > 0 then aset arity rel ((aget arity rel).getD 2) else arity
 
 /-- `delete_tuples_from` on the abstract state. -/
-theorem deleteCore_char {c : Codec} {G} (hc : CodecOk c G) (e : Engine) (rel : String) (ts : List Tuple)
+theorem deleteCoreRaw_char {c : Codec} {G} (hc : CodecOk c G) (e : Engine) (rel : String) (ts : List Tuple)
     (hP : PInv G e) (hg : ∀ t ∈ ts, G rel t) :
-    PInv G (deleteCore c e rel ts).1 ∧ (deleteCore c e rel ts).1.cfg = e.cfg ∧
-    (deleteCore c e rel ts).1.live = delLive e.live rel ts ∧
-    (deleteCore c e rel ts).1.arity = delArity e.live e.arity rel ts ∧
-    (∀ r t, sumOf t (logOf (deleteCore c e rel ts).1 r) =
+    PInv G (deleteCoreRaw c e rel ts).1 ∧ (deleteCoreRaw c e rel ts).1.cfg = e.cfg ∧
+    (deleteCoreRaw c e rel ts).1.live = delLive e.live rel ts ∧
+    (deleteCoreRaw c e rel ts).1.arity = delArity e.live e.arity rel ts ∧
+    (∀ r t, sumOf t (logOf (deleteCoreRaw c e rel ts).1 r) =
       sumOf t (logOf e r) + (if r = rel then sumOf t (mkUpdates ts 0 (-1)) else 0)) := by
-  unfold deleteCore
+  unfold deleteCoreRaw
   cases ts with
   | nil => simp [delLive, delArity, hP, mkUpdates]
   | cons first rest =>
@@ -175,6 +175,23 @@ theorem deleteCore_char {c : Codec} {G} (hc : CodecOk c G) (e : Engine) (rel : S
       · rename_i hn
         refine ⟨PInv_congr a2 rfl rfl rfl rfl rfl, hcfg, by simp [delLive, hgl', hlive2], ?_, hsum _ rfl⟩
         simp [delArity, hgl', har2, hn]
+
+theorem mem_deletable {arity : List (String × Nat)} {rel : String} {ts : List Tuple} {t : Tuple}
+    (h : t ∈ deletable arity rel ts) : t ∈ ts := by
+  unfold deletable at h
+  cases ha : aget arity rel with
+  | none => rw [ha] at h; simp at h
+  | some a => rw [ha] at h; exact (List.mem_filter.1 h).1
+
+/-- `delete_tuples_from` (with its arity filter) on the abstract state. -/
+theorem deleteCore_char {c : Codec} {G} (hc : CodecOk c G) (e : Engine) (rel : String) (ts : List Tuple)
+    (hP : PInv G e) (hg : ∀ t ∈ ts, G rel t) :
+    PInv G (deleteCore c e rel ts).1 ∧ (deleteCore c e rel ts).1.cfg = e.cfg ∧
+    (deleteCore c e rel ts).1.live = delLive e.live rel (deletable e.arity rel ts) ∧
+    (deleteCore c e rel ts).1.arity = delArity e.live e.arity rel (deletable e.arity rel ts) ∧
+    (∀ r t, sumOf t (logOf (deleteCore c e rel ts).1 r) =
+      sumOf t (logOf e r) + (if r = rel then sumOf t (mkUpdates (deletable e.arity rel ts) 0 (-1)) else 0)) :=
+  deleteCoreRaw_char hc e rel _ hP (fun t ht => hg t (mem_deletable ht))
 
 /-- the operations of a C14 history: writes, maintenance, observations (no restart inside). -/
 def isWrite : Op → Bool
@@ -235,12 +252,12 @@ theorem step_write {c : Codec} {G} (hc : CodecOk c G) (e1 e2 : Engine) (o : Op) 
     obtain ⟨p2, c2, l2, r2, s2⟩ := deleteCore_char hc e2 r ts h2 hg
     refine ⟨p1, p2, ⟨?_, ?_, ?_⟩, c1, c2⟩
     · show (deleteCore c e1 r ts).1.live = (deleteCore c e2 r ts).1.live
-      rw [l1, l2, ha.live]
+      rw [l1, l2, ha.live, ha.arity]
     · show (deleteCore c e1 r ts).1.arity = (deleteCore c e2 r ts).1.arity
       rw [r1, r2, ha.live, ha.arity]
     · intro r' t
       show sumOf t (logOf (deleteCore c e1 r ts).1 r') = sumOf t (logOf (deleteCore c e2 r ts).1 r')
-      rw [s1, s2, ha.sums]
+      rw [s1, s2, ha.sums, ha.arity]
   | save | savekg | compact | compactIf _ | restart | shutdown | obs | files | q | bad => simp [isWrite] at hw
 
 /-- the write projection of a history. -/
